@@ -496,40 +496,79 @@ func ruleR16d(c *Ctx) {
 			continue
 		}
 		fed := false
-		for _, b := range fn.Blocks {
-			for _, ins := range b.Instrs {
-				if v, _, ok := storeToField(ins, fld); ok {
-					if valueDerivesFromParam(v, param) {
+		for _, fi := range flattenCalls(fn, pkgBus, 3) {
+			if v, _, ok := storeToField(fi.ins, fld); ok {
+				if fi.env.parent == nil && valueDerivesFromParam(v, param) {
+					fed = true
+				}
+				for _, r := range rootsEnv(v, fi.env, pkgBus) {
+					if r.v == ssa.Value(param) {
 						fed = true
+					}
+					// dereference of the parameter (*reverted), or a slice literal holding it
+					if u, ok := r.v.(*ssa.UnOp); ok && u.Op == token.MUL && u.X == ssa.Value(param) {
+						fed = true
+					}
+				}
+				if sl, ok := v.(*ssa.Slice); ok {
+					for _, e := range variadicElems(sl) {
+						for _, r := range rootsEnv(e, fi.env, pkgBus) {
+							if r.v == ssa.Value(param) {
+								fed = true
+							}
+						}
 					}
 				}
 			}
 		}
 		c.check(fed, rule, key, fn.Pos(), "payload field "+r.field+" is fed from parameter "+param.Name(), "bus payload field "+r.payloadType+"."+r.field+" is not fed from the monitor parameter of the same role ("+param.Name()+"): the event misreports the change")
 	}
-	// (1b) topic, message type and ledger of each event
-	publishFn := c.Fn(pkgBus, "ledgerMonitor.publish")
+	// (1b) topic, message type and ledger of each event — read off the method and the helpers of the package it goes
+	// through (an `emit(ctx, eventType, payload)` helper, payload and envelope constructors)
 	ledgerNameF := c.Field(pkgBus, "ledgerMonitor", "ledgerName")
 	seenTopic := map[string]string{}
 	for _, method := range []string{"CommittedTransactions", "SavedMetadata", "RevertedTransaction", "DeletedMetadata"} {
 		fn := c.Fn(pkgBus, "ledgerMonitor."+method)
 		key := "ledgerMonitor." + method + ":topic-type-and-ledger"
-		if fn == nil || publishFn == nil || ledgerNameF == nil {
-			c.undecided(rule, key, token.NoPos, "bus.ledgerMonitor."+method+" / publish / ledgerName not found")
+		if fn == nil || ledgerNameF == nil {
+			c.undecided(rule, key, token.NoPos, "bus.ledgerMonitor."+method+" / ledgerName not found")
 			continue
 		}
+		flat := flattenCalls(fn, pkgBus, 3)
 		var problems []string
 		nPub := 0
-		allCalls(fn, func(ci ssa.CallInstruction) {
-			if !callsFn(ci, publishFn) || len(ci.Common().Args) < 4 {
-				return
+		topic := ""
+		constOf := func(v ssa.Value, env *frameEnv) (string, bool) {
+			out, n := "", 0
+			for _, r := range rootsEnv(v, env, pkgBus) {
+				if s, ok := constString(r.v); ok {
+					if n > 0 && s != out {
+						return "", false
+					}
+					out = s
+					n++
+				} else if _, isCall := r.v.(*ssa.Call); !isCall {
+					return "", false
+				}
+			}
+			return out, n > 0
+		}
+		for _, fi := range flat {
+			ci, ok := fi.ins.(ssa.CallInstruction)
+			if !ok {
+				continue
+			}
+			cc := ci.Common()
+			if !cc.IsInvoke() || cc.Method.Name() != "Publish" || !isNamed(cc.Value.Type(), "github.com/ThreeDotsLabs/watermill/message", "Publisher") {
+				continue
 			}
 			nPub++
-			topic, okT := constString(ci.Common().Args[2])
+			t, okT := constOf(cc.Args[0], fi.env)
 			if !okT {
 				problems = append(problems, "the topic is not a constant")
-				return
+				continue
 			}
+			topic = t
 			if other, dup := seenTopic[topic]; dup && other != method {
 				problems = append(problems, "the topic "+topic+" is also used by "+other)
 			}
@@ -537,63 +576,47 @@ func ruleR16d(c *Ctx) {
 			if !strings.Contains(strings.ToUpper(strings.ReplaceAll(topic, "_", "")), strings.ToUpper(method)) {
 				problems = append(problems, "the topic "+topic+" does not name the kind of change "+method+" reports")
 			}
-			// the message: built by a constructor of the package whose Type field is the same constant
-			msg := ci.Common().Args[3]
-			ctorCall, _ := msg.(*ssa.Call)
-			var ctor *ssa.Function
-			if ctorCall != nil {
-				ctor = staticCallee(ctorCall)
+		}
+		// the envelope: its Type is the topic, its Payload the payload of this method; the payload's Ledger the monitor's
+		typeOK, payloadOK, ledgerOK := false, false, false
+		payloadT := c.Named(pkgBus, method)
+		for _, fi := range flat {
+			st, ok := fi.ins.(*ssa.Store)
+			if !ok {
+				continue
 			}
-			if ctor == nil || len(ctor.Blocks) == 0 {
-				problems = append(problems, "the message is not built by a constructor of the package")
-				return
+			fa, ok := st.Addr.(*ssa.FieldAddr)
+			if !ok {
+				continue
 			}
-			typeOK, payloadOK := false, false
-			for _, b := range ctor.Blocks {
-				for _, ins := range b.Instrs {
-					st, ok := ins.(*ssa.Store)
-					if !ok {
-						continue
+			switch fieldOfAddr(fa).Name() {
+			case "Type":
+				if t, ok := constOf(st.Val, fi.env); ok && t == topic && topic != "" {
+					typeOK = true
+				}
+			case "Payload":
+				for _, r := range rootsEnv(st.Val, fi.env, pkgBus) {
+					t := r.v.Type()
+					if pt, ok := t.Underlying().(*types.Pointer); ok {
+						t = pt.Elem()
 					}
-					fa, ok := st.Addr.(*ssa.FieldAddr)
-					if !ok {
-						continue
-					}
-					switch fieldOfAddr(fa).Name() {
-					case "Type":
-						if t, ok := constString(st.Val); ok && t == topic {
-							typeOK = true
-						}
-					case "Payload":
-						for _, r := range roots(st.Val, nil) {
-							if p, ok := r.(*ssa.Parameter); ok && p == ctor.Params[0] {
-								payloadOK = true
-							}
-						}
+					if payloadT != nil && namedOf(t) == payloadT {
+						payloadOK = true
 					}
 				}
-			}
-			if !typeOK {
-				problems = append(problems, "the message type set by "+ctor.Name()+" is not the topic "+topic)
-			}
-			if !payloadOK {
-				problems = append(problems, "the message payload set by "+ctor.Name()+" is not the value it was given")
-			}
-		})
-		// Ledger field of the payload = the monitor's own ledger
-		ledgerOK := false
-		for _, b := range fn.Blocks {
-			for _, ins := range b.Instrs {
-				st, ok := ins.(*ssa.Store)
-				if !ok {
-					continue
-				}
-				if fa, ok := st.Addr.(*ssa.FieldAddr); ok && fieldOfAddr(fa).Name() == "Ledger" {
-					if f, _ := anyFieldRead(st.Val); sameField(f, ledgerNameF) {
+			case "Ledger":
+				for _, r := range rootsEnv(st.Val, fi.env, pkgBus) {
+					if f, _ := anyFieldRead(r.v); sameField(f, ledgerNameF) {
 						ledgerOK = true
 					}
 				}
 			}
+		}
+		if nPub == 1 && !typeOK {
+			problems = append(problems, "the message type is not the topic "+topic)
+		}
+		if nPub == 1 && !payloadOK {
+			problems = append(problems, "the message payload is not the "+method+" payload built by this method")
 		}
 		if !ledgerOK {
 			problems = append(problems, "the payload's Ledger is not the monitor's ledger name")
